@@ -12,6 +12,7 @@ import (
 	"os"
 	"path/filepath"
 	"sort"
+	"strings"
 
 	"github.com/LindsayBradford/crem/internal/pkg/dataset/csv"
 	"github.com/LindsayBradford/crem/internal/pkg/model"
@@ -270,4 +271,46 @@ func catchSameObs(a, b interface{}) bool {
 func jsonString(v interface{}) (string, error) {
 	b, err := json.Marshal(v)
 	return string(b), err
+}
+
+// catchPermutedDataset writes a variant of the shipped ValidModel data set into a private temp directory:
+// the Subcatchments rows in reversed order (planning-unit ids no longer ascending) and the Actions rows
+// rotated.  Same planning units, gullies and actions -- only the row order of the input tables differs.
+func catchPermutedDataset() (metaPath string, cleanup func()) {
+	dir, err := os.MkdirTemp("", "verif-catch-")
+	if err != nil {
+		panic(err)
+	}
+	read := func(n string) []string {
+		b, err := os.ReadFile(catchTestdata(n))
+		if err != nil {
+			panic(err)
+		}
+		lines := []string{}
+		for _, l := range strings.Split(strings.ReplaceAll(string(b), "\r\n", "\n"), "\n") {
+			if strings.TrimSpace(l) != "" {
+				lines = append(lines, l)
+			}
+		}
+		return lines
+	}
+	write := func(n string, lines []string) {
+		if err := os.WriteFile(filepath.Join(dir, n), []byte(strings.Join(lines, "\n")+"\n"), 0o666); err != nil {
+			panic(err)
+		}
+	}
+	sub := read("ValidSubcatchments.csv")
+	rev := []string{sub[0]}
+	for i := len(sub) - 1; i >= 1; i-- {
+		rev = append(rev, sub[i])
+	}
+	write("PermSubcatchments.csv", rev)
+	act := read("ValidActions.csv")
+	rot := []string{act[0]}
+	rot = append(rot, act[len(act)/2:]...)
+	rot = append(rot, act[1:len(act)/2]...)
+	write("PermActions.csv", rot)
+	write("PermGullies.csv", read("ValidGullies.csv"))
+	write("PermModel.csv", []string{"TableName, FilePath", "Subcatchments, PermSubcatchments.csv", "Gullies, PermGullies.csv", "Actions, PermActions.csv"})
+	return filepath.Join(dir, "PermModel.csv"), func() { os.RemoveAll(dir) }
 }
